@@ -645,3 +645,187 @@ def checked_calls(P, callee_rx, fn_rx=None, allow_unchecked=()):
                       'in `%s` the result of %s is not checked in place (%s): its failure can be swallowed or deferred'
                       % (oq, callee_name(t), why), where=[b['ln']])
     return r
+
+
+# ------------------------------------------------------------------------------ PAIR
+def pair(P, fn_qual, take_rx, put_rx):
+    """every path from a successful `take` to ANY exit of F (success or error) passes a `put`"""
+    fn = P.fn(fn_qual)
+    body = P.body(fn)
+    trx, prx = re.compile(take_rx), re.compile(put_rx)
+    takes = body.calls(lambda t: call_matches(t, trx))
+    puts = [bi for bi, t in body.calls(lambda t: call_matches(t, prx))]
+    if not takes:
+        raise AnchorMissing('`%s` has no call matching %s' % (fn_qual, take_rx))
+    r = Res()
+    if not puts:
+        r.bad('put-missing', '`%s` takes (%s) but never puts back (%s)' % (fn['qual'], take_rx, put_rx), where=[fn['loc']])
+        return r
+    starts = set()
+    for bi, t in takes:
+        passes, why = checked_pass_blocks(body, bi)
+        r.site('%s @%s' % (fn['qual'], body.ln(bi)))
+        starts |= passes
+    reach = body.reach(list(starts), set(puts))
+    exits = [bi for bi in reach if body.term(bi)['k'] == 'return']
+    if exits:
+        wit = _witness_path(body, next(iter(starts)), set(exits), set(puts)) if starts else []
+        r.bad('unpaired-exit', 'in `%s` an exit is reachable after %s without %s (the taken value is lost on that path)'
+              % (fn['qual'], take_rx, put_rx), where=[body.ln(b) for b in (wit[-5:] or exits[:2])])
+    return r
+
+
+# ------------------------------------------------------------------------------ field access discipline
+def field_method_uses(P, adt_short, field):
+    """calls whose receiver (argument 0) is `<x>.field` of the ADT: [(fn, ln, callee short name)]"""
+    adt = P.adt(adt_short)
+    apath = adt['path']
+    if not any(f['name'] == field for v in adt['variants'] for f in v['fields']):
+        raise AnchorMissing('field %s.%s does not exist' % (adt_short, field))
+    out = []
+
+    def is_field_place(pl):
+        ps = [e for e in pl['p'] if e.startswith('.')]
+        os_ = pl.get('o') or []
+        return bool(ps) and len(os_) == len(ps) and ps[-1] == '.' + field and os_[-1] == apath
+
+    for fn in P.fns.values():
+        # locals that are references to the field
+        refs = set()
+        for b in fn['blocks']:
+            for st in b['st']:
+                rv = st['rv']
+                if rv['k'] in ('ref', 'rawptr') and is_field_place(rv['pl']) and not st['lhs']['p']:
+                    refs.add(st['lhs']['l'])
+                if rv['k'] == 'use' and rv['o']['k'] in ('copy', 'move') and is_field_place(rv['o']['pl']) and not st['lhs']['p']:
+                    refs.add(st['lhs']['l'])
+        if not refs:
+            continue
+        changed = True
+        while changed:
+            changed = False
+            for b in fn['blocks']:
+                for st in b['st']:
+                    rv = st['rv']
+                    src = None
+                    if rv['k'] == 'use' and rv['o']['k'] in ('copy', 'move') and not rv['o']['pl']['p']:
+                        src = rv['o']['pl']['l']
+                    if rv['k'] in ('ref', 'rawptr') and rv['pl']['p'] == ['*']:
+                        src = rv['pl']['l']
+                    if src in refs and not st['lhs']['p'] and st['lhs']['l'] not in refs:
+                        refs.add(st['lhs']['l'])
+                        changed = True
+                t = b['term']
+                if t['k'] == 'call' and t['args'] and re.search(r'::(deref|deref_mut|as_ref|as_mut|borrow|borrow_mut)$', callee_path(t)):
+                    a0 = t['args'][0]
+                    if a0['k'] in ('copy', 'move') and not a0['pl']['p'] and a0['pl']['l'] in refs and not t['dest']['p'] \
+                            and t['dest']['l'] not in refs:
+                        refs.add(t['dest']['l'])
+                        changed = True
+        for b in fn['blocks']:
+            if b.get('cu'):
+                continue
+            t = b['term']
+            if t['k'] == 'call' and t['args']:
+                a0 = t['args'][0]
+                if a0['k'] in ('copy', 'move') and not a0['pl']['p'] and a0['pl']['l'] in refs:
+                    if re.search(r'::(deref|deref_mut|as_ref|as_mut|borrow|borrow_mut)$', callee_path(t)):
+                        continue
+                    out.append((fn, b['ln'], callee_name(t)))
+    return out
+
+
+def field_discipline(P, adt_short, field, allowed_methods):
+    """the field is touched only through the allowed methods (e.g. a consuming `remove_entry`, never `get`/`clone`)"""
+    allow = [re.compile(a) for a in allowed_methods]
+    r = Res()
+    for fn, ln, m in field_method_uses(P, adt_short, field):
+        oq = owner_qual(P, fn)
+        r.site('%s @%s %s' % (oq, ln, m))
+        if not any(a.search(m) for a in allow):
+            r.bad('fn=%s|method=%s' % (oq, m), '`%s` accesses %s.%s through %s, which is not one of the allowed accessors %s'
+                  % (oq, adt_short, field, m, allowed_methods), where=[ln])
+    return r
+
+
+# ------------------------------------------------------------------------------ variant-arm wiring
+def arm_wiring(P, fn_qual, enum_short, expect, what='call', call_rx=None, arg=0):
+    """for the `match` on a value of enum `enum_short` in F: in the arm of variant V the first matching call
+    (or aggregate) has an origin matching expect[V]"""
+    fn = P.fn(fn_qual)
+    body = P.body(fn)
+    adt = P.adt(enum_short)
+    o = Origins(body)
+    r = Res()
+    vals = {str(v['discr']): v['name'] for v in adt['variants']}
+    crx = re.compile(call_rx) if call_rx else None
+    found = 0
+    for bi, b in enumerate(body.B):
+        t = b['term']
+        if t['k'] != 'switch' or b.get('cu'):
+            continue
+        # discriminant of a place of the enum type?
+        dl = t['d']['pl']['l'] if t['d']['k'] in ('copy', 'move') else None
+        src = None
+        for st in b['st']:
+            if st['rv']['k'] == 'discr' and not st['lhs']['p'] and st['lhs']['l'] == dl:
+                src = st['rv']['pl']
+        if src is None:
+            continue
+        lty = body.fn['locals'][src['l']]['head'] if not [e for e in src['p'] if e != '*'] else ''
+        ptxt = o.place_str(src)
+        owners = src.get('o') or []
+        is_enum = (lty == 'adt:' + adt['path'])
+        if not is_enum and src['p']:
+            # field place: use the declared type of the last field when available
+            ps = [e for e in src['p'] if e.startswith('.')]
+            if ps and owners:
+                own = P.adts.get(owners[-1])
+                if own:
+                    for v in own['variants']:
+                        for f in v['fields']:
+                            if '.' + f['name'] == ps[-1] and _last(f['ty']) == _last(adt['path']):
+                                is_enum = True
+        if not is_enum:
+            continue
+        found += 1
+        arms = {}
+        for v, tg in t['ts']:
+            if v in vals:
+                arms[vals[v]] = tg
+        rest = [n for n in vals.values() if n not in arms]
+        if len(rest) == 1:
+            arms[rest[0]] = t['o']
+        for vname, rx in expect.items():
+            if vname not in arms:
+                r.bad('arm-missing:' + vname, 'in `%s` the match on %s has no arm for %s' % (fn['qual'], enum_short, vname), where=[b['ln']])
+                continue
+            got = _first_in_arm(body, o, arms[vname], crx, arg, what)
+            r.site('%s: %s => %s' % (fn['qual'], vname, (got or '<none>')[:100]))
+            if got is None or not re.search(rx, got):
+                r.bad('arm-wiring:' + vname, 'in `%s` the %s arm of the match on %s uses `%s`, expected /%s/'
+                      % (fn['qual'], vname, enum_short, got, rx), where=[b['ln']])
+    if not found:
+        raise AnchorMissing('`%s` has no match on a value of type %s' % (fn_qual, enum_short))
+    return r
+
+
+def _first_in_arm(body, o, start, crx, arg, what):
+    seen = set()
+    bi = start
+    while bi not in seen:
+        seen.add(bi)
+        b = body.B[bi]
+        if what == 'agg':
+            for st in b['st']:
+                rv = st['rv']
+                if rv['k'] == 'agg' and rv['what'].startswith('adt:') and (crx is None or crx.search(rv['what'])):
+                    return rv['what'].split('::')[-1]
+        t = b['term']
+        if what == 'call' and t['k'] == 'call' and (crx is None or call_matches(t, crx)):
+            return o.arg_str(t, arg)
+        nx = body.succs(bi)
+        if len(nx) != 1:
+            return None
+        bi = nx[0]
+    return None
